@@ -42,6 +42,7 @@ from unified_planning.model.problem_kind_versioning import LATEST_PROBLEM_KIND_V
 from unified_planning.engines.compilers.utils import (
     get_fresh_name,
     get_fresh_parameter_name,
+    updated_minimize_action_costs,
 )
 from unified_planning.model.timing import StartTiming, Timing, TimeInterval
 from unified_planning.plans.plan import ActionInstance
@@ -291,6 +292,15 @@ class InterpretedFunctionsRemover(engines.engine.Engine, CompilerMixin):
                 new_a.name = get_fresh_name(new_problem, a.name)
                 new_problem.add_action(new_a)
                 new_to_old[new_a] = a
+
+        new_problem.clear_quality_metrics()
+        for qm in problem.quality_metrics:
+            if qm.is_minimize_action_costs():
+                new_problem.add_quality_metric(
+                    updated_minimize_action_costs(qm, new_to_old, env)
+                )
+            else:
+                new_problem.add_quality_metric(qm)
 
         old_goals = new_problem.goals
         new_problem.clear_goals()
